@@ -589,7 +589,9 @@ func (g *gen) fill(dst reflect.Value, path string, depth int, live bool) {
 		}
 		p := reflect.New(im.Type)
 		g.fill(p.Elem(), path+"("+im.Type.String()+")", depth, live)
-		if im.PointerPreferred {
+		// the form the decoder will construct when it can be stored in this interface, otherwise the form that can
+		// (the registry audit reports the inconsistency; the round trip then shows its consequence)
+		if usePtr, _ := storeForm(t, im); usePtr {
 			dst.Set(p)
 		} else {
 			dst.Set(p.Elem())
@@ -672,10 +674,16 @@ func buildValueOv(reg *registry, t reflect.Type, prefix []int, override map[int]
 // order (DFS, deviations ordered by position, alternatives ascending). Deviation number j (1-based) is only taken
 // at choice points whose depth is <= depthLimit[j-1] (0 = no limit). shard/nshards split the work by the first
 // deviation (the all-default value belongs to shard 0). visit returns false to stop.
+// building describes the value under construction (read by the panic report of executor.run; one goroutine per process
+// builds values).
+var building func() string
+
 func explore(reg *registry, t reflect.Type, maxDev int, depthLimit []int, shard, nshards int, boundaries bool, visit func(p reflect.Value, c *chooser, ndev int) bool) {
 	var rec func(prefix []int, ndev int, first int, leaf bool) bool
 	rec = func(prefix []int, ndev int, first int, leaf bool) bool {
+		building = func() string { return fmt.Sprintf("%v under choice prefix %v", t, prefix) }
 		p, c, _ := buildValue(reg, t, prefix)
+		building = nil
 		if ndev > 0 || shard == 0 {
 			if !visit(p, c, ndev) {
 				return false
